@@ -429,8 +429,9 @@ def make_spaced(spacing, n_blocks=3, tail=0):
     return builder
 
 
-def make_clearcp(pos, cleanup_shape="finalize"):
-    """clear_checkpoint after `pos` points; the rest of the run is non-resumable; cleanup in a finally."""
+def make_clearcp(pos, cleanup_shape="finalize", inplan_pause_after=None):
+    """clear_checkpoint after `pos` points; the rest of the run is non-resumable; cleanup in a finally.
+    inplan_pause_after=k: the plan itself asks for a pause (Msg('pause')) after the k-th message of the section."""
 
     def builder(h, d):
         det, m1 = d["det"], d["m1"]
@@ -452,9 +453,17 @@ def make_clearcp(pos, cleanup_shape="finalize"):
                 yield from point(k)
             yield Msg("clear_checkpoint")
             P(h, "nonresumable-start")
-            for k in range(pos, pos + 2):
-                yield from point(k)
-                yield Msg("sleep", None, 0.05)
+
+            def section():
+                for k in range(pos, pos + 2):
+                    yield from point(k)
+                    yield Msg("sleep", None, 0.05)
+
+            for i, m in enumerate(section()):
+                if inplan_pause_after == i:
+                    P(h, "inplan-pause")
+                    yield Msg("pause")
+                yield m
             P(h, "nonresumable-end")
             yield Msg("close_run")
             yield Msg("unstage", det)
@@ -638,6 +647,8 @@ CORPUS = {
     "clearcp0": make_clearcp(0),
     "clearcp1": make_clearcp(1),
     "clearcp2": make_clearcp(2, "tryfinally"),
+    **{f"clearcp_ip{pos}_{k}": make_clearcp(pos, "finalize" if (pos + k) % 2 == 0 else "tryfinally", inplan_pause_after=k)
+       for pos in (0, 1, 2) for k in range(0, 16)},
     "spaced1": make_spaced(1, 4),
     "spaced2": make_spaced(2, 4),
     "spaced3": make_spaced(3, 3),
